@@ -295,6 +295,21 @@ def run_case(case, oracle="plain"):
                             violations.append(viol(key, f"{fam}/{var}/{tr} fill={case['fill']} k={k}: {sid} = {data[sid]!r} "
                                                    f"but the code {sid[:-6]} of the same result is {data[sid[:-6]]!r} "
                                                    f"(table lookup gives {want!r})"))
+                if fam == "ET":
+                    # the documented formulas over the RAW VALUES OF THE SAME RESULT (whatever class reports them)
+                    ap_, gio_, hc_ = data.get("active_power"), data.get("grid_in_out"), data.get("house_consumption")
+                    ppv_, pb_ = data.get("ppv"), data.get("pbattery1")
+                    if isinstance(ap_, int) and gio_ is not None and gio_ != D.grid_mode(ap_):
+                        key = "C13:ET:formula:grid_in_out"
+                        if key not in {v["key"] for v in violations}:
+                            violations.append(viol(key, f"{fam}/{var}/{tr} fill={case['fill']} k={k}: grid_in_out = {gio_!r} but "
+                                                   f"active_power of the same result is {ap_} (-> {D.grid_mode(ap_)})"))
+                    if all(isinstance(x, int) for x in (ap_, hc_, ppv_, pb_)) and hc_ != ppv_ + pb_ - ap_:
+                        key = "C13:ET:formula:house_consumption"
+                        if key not in {v["key"] for v in violations}:
+                            violations.append(viol(key, f"{fam}/{var}/{tr} fill={case['fill']} k={k}: house_consumption = {hc_} "
+                                                   f"but ppv + pbattery1 - active_power of the same result = "
+                                                   f"{ppv_} + {pb_} - {ap_} = {ppv_ + pb_ - ap_}"))
                 for sid, ref in exp.items():
                     if sid not in data:
                         continue
